@@ -62,6 +62,13 @@ def rule_aborted_filter(ctx):
     def under_level(x):
         return any(c.dominated_by_branch(l, "T", x) for l in lvls)
     pid = [t for t in c.nodes if t.kind == "test" and is_none_test(t.ast, negate=True) is not None and unparse(is_none_test(t.ast, negate=True)) == "next_batch.producer_id"]
+    # producer id 0 is the first id a broker hands out: the only admissible test of the batch's producer id is `is (not) None` (legacy batches)
+    tr = [t for t in c.nodes if t.kind == "test" and isinstance(t.ast, (ast.Name, ast.Attribute)) and (unparse(t.ast).endswith("producer_id"))]
+    if not tr:
+        # ... also through a local that holds it
+        tr = [t for t in c.nodes if t.kind == "test" and isinstance(t.ast, ast.Name) and any(isinstance(def_value(d), ast.Attribute) and def_value(d).attr == "producer_id" for d in local_defs(c, t.ast.id))]
+    ctx.ob(R, fi, (tr[0] if tr else fi.node), not tr, f"the aborted-transaction filter is entered on the TRUTHINESS of the producer id (`{unparse(tr[0].ast) if tr else ''}`): batches of producer id 0 "
+                                                      "skip the filter and its aborted records are delivered under read_committed", text="producer-id-none-test")
     cons = c.calls(attr="_consume_aborted_up_to")
     disc = [n for n in c.calls(attr="discard") + c.calls(attr="remove") if unparse(n.ast.func.value) == "self._aborted_producers"]
     skip = [t for t in c.nodes if t.kind == "test" and isinstance(t.ast, ast.Compare) and isinstance(t.ast.ops[0], ast.In) and unparse(t.ast.comparators[0]) == "self._aborted_producers"]
@@ -275,4 +282,6 @@ def run(ctx):
     c03.rule_unpack(ctx)
     rule_level_flow(ctx)
     rule_fresh_waiter(ctx)
+    from .common import rule_instance_state
+    rule_instance_state(ctx, ("aiokafka.consumer.",))
     rep.nd("exactness of the delivered set for all interleavings of producers / cuts of the log (needs concrete logs)")
